@@ -568,7 +568,9 @@ uint64_t DetectorErrorModel::count_observables() const {
                 break;
             case DemInstructionType::DEM_REPEAT_BLOCK: {
                 auto &block = e.repeat_block_body(*this);
-                max_num = std::max(max_num, block.count_observables());
+                if (e.repeat_block_rep_count() > 0) {
+                    max_num = std::max(max_num, block.count_observables());
+                }
             } break;
             case DemInstructionType::DEM_LOGICAL_OBSERVABLE:
             case DemInstructionType::DEM_ERROR:
